@@ -60,6 +60,7 @@ F3_EVICT = "lru_cache:entry-evicted-while-referenced"
 F3_RETRY = "lru_cache:retry-after-failed-call-under-finite-maxsize"
 F16_CLEAR = "lru_cache:cache_clear-with-calls-in-flight-under-finite-maxsize"
 F19_EXPIRED = "lru_cache:entry-expired-while-callers-still-queued-on-its-lock"
+F35_ORPHAN = "lru_cache:placeholder-left-by-a-call-cancelled-before-it-took-the-lock"
 KEYS = [1, 2, 3, "a", "b", 1.0, True]  # the last two alias 1 unless typed
 
 
@@ -132,7 +133,9 @@ def gen_s1(rng: random.Random, cfgs: list[str]) -> dict:
             "typed": rng.random() < 0.5, "ttl": ttl, "always_checkpoint": rng.random() < 0.3,
             "seq": seq, "probe": keys, "alias": alias,
             # the argument is passed by keyword in a share of the histories
-            "kw": rng.random() < 0.35}  # fmt: skip
+            "kw": rng.random() < 0.35,
+            # calls made in an already cancelled scope (positions in seq)
+            "precancelled": sorted(rng.sample(range(len(seq)), min(len(seq), rng.choice([0, 0, 0, 0, 0, 0, 0, 0, 1, 2]))))}  # fmt: skip
 
 
 def execute_s1(case: dict) -> dict:
@@ -168,13 +171,35 @@ def execute_s1(case: dict) -> dict:
 
         last_token: dict = {}
         steps = [(k, s, "seq") for k, s in case["seq"]] + [(k, 0, "probe") for k in case["probe"]]
-        for ki, sleep, phase in steps:
+        # (not with always_checkpoint: there a *hit* is cancelled after it has refreshed the
+        # entry's recency, and whether that counts as a use is nobody's statement)
+        pre = set() if case["always_checkpoint"] else set(case.get("precancelled", ()))
+        for idx, (ki, sleep, phase) in enumerate(steps):
             arg = KEYS[ki]
+            pre_tok = None
             if sleep:
                 await anyio.sleep(sleep)
 
+            if idx in pre and phase == "seq":
+                # a call made in a scope that is cancelled already: either it is cancelled
+                # before it has done anything - then, for the cache, it never happened - or
+                # it completes like any other call (nothing obliges it to be a checkpoint)
+                n_before = len(execs)
+                with anyio.CancelScope() as cs:
+                    cs.cancel()
+                    pre_tok = await (fn(arg=arg) if case.get("kw") else fn(arg))
+
+                out["windows"]["call_in_an_already_cancelled_scope"] = 1
+                if cs.cancelled_caught:
+                    if len(execs) > n_before:
+                        out["windows"]["function_ran_before_the_cancellation_landed"] = 1
+
+                    trace.append([repr(arg), sleep, phase, "precancelled"])
+                    continue
+
+
             now = anyio.current_time()
-            n0 = len(execs)
+            n0 = len(execs) if pre_tok is None else n_before
             size0 = len(ref.d)
             must = ref.call(arg, now)
             if must and size0 and (len(ref.d) <= size0):
@@ -187,7 +212,7 @@ def execute_s1(case: dict) -> dict:
                     viol.append(("reference-model-disagrees-with-functools", {"arg": repr(arg)}))
 
             try:
-                tok = await (fn(arg=arg) if case.get("kw") else fn(arg))
+                tok = pre_tok if pre_tok is not None else await (fn(arg=arg) if case.get("kw") else fn(arg))
             except BaseException as e:  # noqa: BLE001
                 viol.append(("internal-error", {"exc": repr(e), "arg": repr(arg)}))
                 return
@@ -233,7 +258,12 @@ def execute_s1(case: dict) -> dict:
 
     out["sig"] = sig_of(["S1", case["maxsize"], case["typed"], case["ttl"], trace])
     out["log_tail"] = trace[-40:]
-    out["viol"] = [(c, d, None) for c, d in viol]
+    # F35: a call cancelled before it took the entry's lock leaves its placeholder behind,
+    # uncounted; attributed only to histories that contain such a call under a finite maxsize
+    f35 = (F35_ORPHAN if case.get("precancelled") and case["maxsize"] not in (None, 0)
+           and any(t[3] == "precancelled" for t in trace) else None)  # fmt: skip
+    out["viol"] = [(c, d, f35 if c in ("s1:execution-differs-from-reference", "retention-above-maxsize",
+                                       "s1:hit-returned-wrong-token") else None) for c, d in viol]  # fmt: skip
     return out
 
 
